@@ -567,8 +567,24 @@ def tdb_rules(ctx, A):
     R = strip(td['regions'])
     packed = strip(td['packed'])
     rrcall = [x for x in walk(R) if is_call(x, rr.id)]
-    ctx.ob(['C01', 'C02'], 'R-SLP', 'TDB|regions-from-resolve_regions', bool(rrcall), 'TypeDefinition.regions is the vector returned by resolve_regions: %s' % show(R)[:120], where)
-    ctx.ob(['C02'], 'R-SLP', 'TDB|size-from-resolve_regions', any(is_call(x, rr.id) for x in walk(S)), 'ItemStateResolved.size is the size returned by resolve_regions: %s' % show(S)[:120], where)
+
+    def pure_projection(e):
+        # a component of the value resolve_regions returned, taken out as it is: nothing computed on it, no second source merged in
+        for _ in range(12):
+            e = strip(e)
+            if e[0] == 'call' and e[1] == rr.id:
+                return True
+            if e[0] in ('field', 'payload', 'try'):
+                e = e[1]
+            elif e[0] == 'call' and (e[3].endswith('Context::with_context') or e[3].endswith('Context::context')) and e[2]:
+                e = e[2][0]
+            elif e[0] == 'var' and len(tdb.defs().get(e[1], [])) == 1 and not (1 <= e[1] <= tdb.nargs):
+                e = tdb.expr_of_def(tdb.defs()[e[1]][0])
+            else:
+                return False
+        return False
+    ctx.ob(['C01', 'C02'], 'R-SLP', 'TDB|regions-from-resolve_regions', bool(rrcall) and pure_projection(R), 'TypeDefinition.regions is the vector returned by resolve_regions, unchanged: %s' % show(R)[:120], where)
+    ctx.ob(['C02', 'C03'], 'R-SLP', 'TDB|size-from-resolve_regions', any(is_call(x, rr.id) for x in walk(S)) and pure_projection(S), 'ItemStateResolved.size is the size returned by resolve_regions, unchanged: %s' % show(S)[:120], where)
     # alignment role: var with defs {1 on the packed path, A otherwise}
     Aexpr = None
     if AL[0] == 'var':
@@ -1144,10 +1160,48 @@ def _census_fn(ctx, fn, via, depth, emit):
     return out
 
 
+EXPECTED_DEFER = ['resolve_grammar_type', 'Type::size', 'Type::alignment', 'Region::size', 'Regions::push', 'resolve_regions', 'ItemDefinition::resolved',
+                  'ItemDefinition::size', 'ItemDefinition::alignment', 'get_region_name_and_type_definition', 'vftable::build', 'region_name_and_vftable']
+
+
 def census(ctx, A):
     for fn in (A['TDB'], A['RR']):
         for ok, key, what, where in _census_fn(ctx, fn, [], 0, True):
             ctx.ob(['C03', 'C10'], 'R-CENSUS', key, ok, what, where)
+    # the other way to get rid of a description: "not yet" (Ok(None)).  A type is deferred only because something it depends on has
+    # no size / is not resolved yet; any other deferral leaves a resolvable type unresolved for ever (the build then fails with
+    # "type resolution will not terminate")
+    P = ctx.prog
+    n = 0
+    for fn in P.fns.values():
+        if fn.raw.get('derived') or fn.kind == 'Closure' or not re.match(r'^semantic::(type_definition|enum_definition)', fn.id):
+            continue
+        if not re.match(r'^std::result::Result<std::option::Option<', fn.raw.get('output', '')):
+            continue
+        # the builders proper (their Some is a resolved item, or the laid-out regions): in a lookup helper `Ok(None)` means "there
+        # is none", and what the builder does with that is seen at its call site
+        if 'ItemStateResolved' not in fn.raw.get('output', '') and fn.id != A['RR'].id:
+            continue
+        seen = {}
+        for g in guards_of(fn):
+            if g.kind != 'defer':
+                continue
+            n += 1
+            src = None
+            if g.pred[0] in ('is_none', 'fails'):
+                src = _head(unwrap_all(g.pred[1])) if strip(unwrap_all(g.pred[1]))[0] == 'call' else None
+                if src is None:
+                    inner = [short(c_[1]) for c_ in calls_in(g.pred[1])]
+                    src = inner[0] if inner else None
+            ok = src is not None and any(s_ in src for s_ in EXPECTED_DEFER)
+            key = 'deferred|%s|%s' % (short(fn.id), (src or 'unexpected:' + show(g.pred)[:50]) if ok else 'unexpected:' + show(g.pred)[:50])
+            seen[key] = seen.get(key, 0) + 1
+            if seen[key] > 1:
+                key += '#%d' % seen[key]
+            ctx.ob(['C10', 'C03'], 'R-CENSUS', key, ok,
+                   ('deferred because %s gave no value yet' % src) if ok else 'a description is deferred ("not yet") for a reason that is not an unresolved dependency: %s' % show(g.pred)[:160], g.where(),
+                   nontrivial=not ok)
+    ctx.ob(['C10'], 'R-CENSUS', 'deferred|census', n >= 7, 'deferral points examined: %d (floor 7)' % n, nontrivial=False)
 
 
 def sole_field_alignment(tdb, e):
